@@ -41,7 +41,7 @@ def ticking_source(nid):
 def case(draw, tier):
     big = tier == "thorough"
     horizon = draw(st.integers(3, 14 if big else 8))
-    shape = draw(st.sampled_from(["flat", "flat", "nested", "map", "switch", "reduce", "tslmap", "oreduce"]))
+    shape = draw(st.sampled_from(["flat", "flat", "nested", "map", "switch", "reduce", "tslmap", "oreduce", "mesh"]))
     n = draw(st.integers(2, 6))
     stmts = [ticking_source("n0")]
     subs = {}
@@ -150,6 +150,27 @@ def case(draw, tier):
                       "args": [{"fn": "C"}, {"ts": "d"}, {"ts": "z"}, {"sc": False, "t": "bool", "name": "is_associative"}]})
         stmts.append({"id": "after", "op": "node", "ins": ["red"], "log_inputs": False, "valid": []})
         targets += ["C.c0", "C.c1", "after"]
+    elif shape == "mesh":
+        # mesh_: instances read a sibling through mesh_(F)[link]; keys only appear
+        subs["F"] = {"params": ["TS[int]", "TS[int]"], "names": ["val", "link"], "out": "TS[int]", "ret": "f1", "stmts": [
+            {"id": "dep", "op": "mesh_ref", "key": {"arg": 1}, "schema": "TS[int]"},
+            {"id": "f0", "op": "node", "ins": [{"arg": 0}, "dep"], "valid": [0], "out": "TS[int]", "fn": "sum", "log_inputs": False},
+            {"id": "f1", "op": "node", "ins": ["f0"], "out": "TS[int]", "fn": "acc", "log_inputs": False}]}
+        nk = draw(st.integers(1, 4))
+        vscript = [[0, [{"k": "D", "ops": [["set", k, k] for k in range(1, nk + 1)]}]]]
+        lscript = []
+        for t in range(1, horizon):
+            r = draw(st.integers(0, 3))
+            if r == 0:
+                vscript.append([t, [{"k": "D", "ops": [["set", draw(st.integers(1, nk + 1)), t]]}]])
+            elif r == 1 and nk >= 2:
+                k = draw(st.integers(2, nk))
+                lscript.append([t, [{"k": "D", "ops": [["set", k, draw(st.integers(1, k - 1))]]}]])
+        stmts.append({"id": "mv", "op": "src", "schema": "TSD[int,TS[int]]", "script": vscript})
+        stmts.append({"id": "ml", "op": "src", "schema": "TSD[int,TS[int]]", "script": lscript})
+        stmts.append({"id": "m", "op": "op", "name": "mesh_", "args": [{"fn": "F"}, {"ts": "mv"}, {"ts": "ml"}], "has_out": True})
+        stmts.append({"id": "after", "op": "node", "ins": ["m"], "log_inputs": False, "valid": []})
+        targets += ["F.f0", "F.f1", "after"]
     nfaults = draw(st.sampled_from([0, 1, 1, 1, 2, 2]))
     faults = []
     if shape == "switch" and draw(st.integers(0, 2)) == 0:
